@@ -1,7 +1,7 @@
 """C07 — join counter: waiters released exactly when the N-th decrement happens (DESIGN.md section 4, C07).
 
 prove (coq/Properties_C07.v) -> build (lib_interp + unit harness from the CURRENT tree, extracted model)
--> unit correspondence of calc_bits / init fields -> dependency-DAG programs on the real library under the
+-> unit correspondence of calc_bits / init fields, word-width obligation, wide-value preset scenarios -> dependency-DAG programs on the real library under the
 schedule controller -> every trace replayed through the extracted model (per join counter object)
 -> independent oracle of the property on the trace.
 """
@@ -82,8 +82,65 @@ def unit_cases(ctx):
     return cases
 
 
+def preset_cases(ctx):
+    """wide-value scenarios 'preset N k w' (see harness/c07_unit.c): k real waiters asleep, N-1 decrements' worth
+    preset into the word through the struct, the final decrement through the API.  Boundaries of every plausible
+    narrowing of the packed word (16/32 bits, sign bit of 32/64) and random wide values."""
+    r = ctx.rng
+    fixed = [(1, 1, 1), (3, 2, 1), (8, 4, 2), (1 << 8, 256, 1), (1 << 12, 16, 1),
+             (1 << 24, 63, 1), (1 << 24, 64, 1), (1 << 20, 1024, 1), ((1 << 30) - 1, 1, 2), ((1 << 30) - 1, 2, 1),
+             (1 << 30, 1, 1), ((1 << 31) - 1, 1, 1), (1 << 31, 1, 1), (1 << 32, 3, 1), (1 << 33, 4, 2),
+             (1 << 40, 8, 1), (1 << 60, 2, 1), (1 << 61, 1, 1), ((1 << 62) - 1, 1, 1)]
+    out = list(fixed)
+    for _ in range(12 if not ctx.thorough else 120):
+        b = r.rng(10, 61)
+        n = r.rng(1 << (b - 1), (1 << b) - 1)
+        k = r.rng(1, min(48, (1 << (63 - b)) - 1))
+        out.append((n, k, r.choice([1, 1, 2, 3])))
+    return ["preset %d %d %d" % c for c in out]
+
+
+WIDTHS_ASSUMED = {"state": 8, "state_signed": 1, "n_threads": 8, "state_mask": 8}
+
+
+def widths_obligation(unit):
+    """the word widths of the CURRENT struct vs. what coq/JoinCounter/JcModel.v assumes (wrap64 / add64 / shl1:
+    64-bit two's-complement longs for state, n_threads, state_mask).  Returns (line, list of mismatches)."""
+    out, _, _ = vlib.run_lines([unit], ["widths 0"], timeout=60)
+    line = out[0] if out else "<no output>"
+    got = {k: int(v) for k, v in re.findall(r"(\w+)=(-?\d+)", line)}
+    bad = ["%s: %s in the current tree, %d assumed by the model" % (k, got.get(k, "?"), v)
+           for k, v in WIDTHS_ASSUMED.items() if got.get(k) != v]
+    if got.get("n_threads_bits", 0) < 1:
+        bad.append("n_threads_bits: width not reported")
+    return line, bad
+
+
+def preset_oracle(case, out):
+    """the property on a wide-value scenario, stated directly (no model): every sleeping waiter is released by
+    the N-th decrement, nobody is left in the queue, the word holds (k << bits(N)) | N"""
+    _, n, k, w = case.split()
+    n, k = int(n), int(k)
+    m = re.match(r"preset n=(-?\d+) k=(-?\d+) reg=(-?\d+) pre=(-?\d+) dec=(-?\d+) state=(-?\d+) released=(-?\d+) rets=(-?\d+) q=(-?\d+)$", out)
+    if not m:
+        return "N=%d, %d sleeping waiters, final decrement: the run did not complete (killed by the watchdog, abort or exit(1)): %s" % (n, k, out)
+    _, _, reg, pre, dec, st, rel, rets, q = [int(v) for v in m.groups()]
+    bl = n.bit_length()
+    if rel != k or q != 0:
+        return ("N=%d (bits %d) with %d waiters asleep: after the N-th decrement only %d were released, %d still in the "
+                "sleep queue (state word %d, expected %d)" % (n, bl, k, rel, q, st, (k << bl) | n))
+    if dec != 0 or rets != 0:
+        return "N=%d, %d waiters: return values dec=%d, sum of wait returns=%d" % (n, k, dec, rets)
+    if reg != (k << bl) or pre != (k << bl) + n - 1 or st != (k << bl) + n:
+        return ("N=%d (bits %d), %d waiters: packed word %d after registration / %d after the final decrement, expected %d / %d"
+                % (n, bl, k, reg, st, k << bl, (k << bl) + n))
+    return None
+
+
 def unit_oracle(case, out):
     """calc_bits_spec and the init fields stated directly; None if fine"""
+    if case.startswith("preset"):
+        return preset_oracle(case, out)
     k, x = case.split()[0], int(case.split()[1])
     if k == "calc":
         if x >= (1 << 62):
@@ -454,7 +511,9 @@ def run(ctx):
     exe, unit, drv = build(ctx)
 
     # ---- unit correspondence: calc_bits / init fields --------------------------------------
-    ucases = unit_cases(ctx)
+    pcases = preset_cases(ctx)
+    ucases = pcases + unit_cases(ctx)
+    wline, wbad = widths_obligation(unit)
     uimpl, rc1, _ = vlib.run_lines([unit], ucases, timeout=300)
     umodel, rc2, _ = vlib.run_lines([drv], ucases, timeout=300)
     udiffs = vlib.diff_lines(ucases, uimpl, umodel)
@@ -501,6 +560,7 @@ def run(ctx):
 
     ctx.cov["correspondence"] = {
         "unit_cases": len(ucases), "unit_disagreements": len(udiffs), "unit_oracle_failures": len(ufail),
+        "preset_cases": len(pcases), "word_widths": wline, "word_width_mismatches": wbad,
         "cases": len(cases), "corpus_cases": len(corpus), "blocks_replayed": sum(len(r["blocks"]) for r in results),
         "model_events_replayed": ev_total, "disagreements": len(mfail), "oracle_failures": len(ofail),
         "input_distribution": dist, "point_histogram": mine, "points_never_hit": missing}
@@ -512,14 +572,20 @@ def run(ctx):
     ctx.cov["trusted_base"] += [
         "extraction: ExtrOcamlBasic only; ocaml/driver_C07.ml, ocaml/zio.ml",
         "harness/lib_interp.c (schedule controller: one participant at a time, POINT line written immediately before the access); "
-        "harness/c07_unit.c; tools/trace.py parse_trace; the projection jc_block in tools/props/c07.py",
+        "harness/c07_unit.c (incl. the white-box preset: N-1 added to jc->state through the struct stands for N-1 decrements; "
+        "sizeof obligations on state / n_threads / state_mask); tools/trace.py parse_trace; the projection jc_block in tools/props/c07.py",
         "modelled, not verified here: sleep-queue enqueue/dequeue as one atomic step each (spinlock-protected list, C06's concern); "
         "the run-queue push/pop and the context switch (C01/C02/C03); myth_block_on_queue's run-queue pop has no model step"]
 
     # ---- verdicts -----------------------------------------------------------------------------
     if ufail:
         c, o, msg = ufail[0]
-        ctx.violation("oracle", msg, {"unit_case": c, "observed": o, "expected": "see calc_bits_spec", "level": "unit",
+        exp = "see calc_bits_spec"
+        if c.startswith("preset"):
+            mo, _, _ = vlib.run_lines([drv], [c])
+            exp = mo[0] if mo else "all k waiters released, queue empty, word = (k << bits(N)) | N"
+        ctx.violation("oracle", msg, {"unit_case": c, "observed": o, "expected": exp, "level": "unit (real runtime, white-box preset)"
+                                      if c.startswith("preset") else "unit", "word_widths": wline, "word_width_mismatches": wbad,
                                       "all_failing": [(a, b, m) for a, b, m in ufail[:20]]}, found=True)
     if ofail:
         r, f = ofail[0]
@@ -547,6 +613,12 @@ def run(ctx):
             ctx.violation("correspondence", "calc_bits / init fields: model and code disagree on %d case(s); first: %s" % (len(udiffs), c),
                           {"theorem_or_correspondence": "correspondence calc_bits / jc_init <-> src/myth_sync_func.h",
                            "unit_case": c, "observed": a, "expected": b, "all": udiffs[:20]}, found=False)
+    if wbad and not any(v["found"] for v in ctx.violations):
+        ctx.violation("widths", "word widths assumed by coq/JoinCounter (64-bit state word) do not hold in the current tree: " + "; ".join(wbad),
+                      {"theorem_or_correspondence": "word widths assumed by coq/JoinCounter (64-bit state word): wrap64/add64/shl1 in "
+                                                    "JoinCounter/JcModel.v vs. struct myth_join_counter in include/myth/myth.h",
+                       "unit_case": "widths 0", "observed": wline,
+                       "expected": " ".join("%s=%d" % kv for kv in WIDTHS_ASSUMED.items())}, found=False)
     if missing and not ctx.violations:
         ctx.violation("coverage", "POINT ids / situations never exercised by this run: " + ", ".join(missing),
                       {"theorem_or_correspondence": "coverage of the join counter's program points", "histogram": mine}, found=False)
@@ -570,7 +642,9 @@ def replay(ctx, path):
         print("case:  ", c)
         print("impl:  ", impl[0] if impl else None)
         print("model: ", model[0] if model else None)
-        print("oracle:", unit_oracle(c, impl[0] if impl else "<no output>"))
+        print("oracle:", (unit_oracle(c, impl[0] if impl else "<no output>") if not c.startswith("widths") else None)
+              or "holds on this case")
+        print("widths:", widths_obligation(unit))
     if "case" in body:
         c = body["case"]
         r = run_one(exe, drv, c, os.path.join(ctx.dir, "replay"), "replay")
